@@ -1,6 +1,7 @@
 import Rare.Base.Proto
 import Rare.Model.C13Lower
 import Rare.Model.C13Date
+import Rare.Model.C13Groups
 /-!
 Line-protocol ops of C13.  Common trailing fields describe the data and the REMAINING library oracles
 (`dateparse.ParseFormat`, `time.Parse`).  `strconv.ParseFloat` and `strings.ToLower` are computed by
@@ -35,6 +36,12 @@ Round 4 – `time.Parse` computed by the model (`timeParseNs`), only `dateparse.
   dsortspec <name> <keys> <values> <perm> <dl>   = sortspec      dagg = agg
   dcmpseq   <name> <keys> <values> <pairs> <dl>  = cmpseq
   daxioms   <name> <keys> <values> <dl>          = axioms
+
+Row order of `rare reduce` (`AccumulatingGroup.Groups` with `ByContextual()` / `Reverse(ByContextual())`):
+
+  groups    <rev 0|1> <groups> <sortkeys|.> <perm>   the specified order: sort key by the sorter, equal sort keys
+                                                      by group key text (`.` = no `--sort`: the sorter on the group keys);
+                                                      `unmodelled` when the sorter's keys are not `ctxUniform` (F19)
 -/
 namespace Rare.Drv.C13
 open Rare Rare.C13 Rare.Proto
@@ -239,6 +246,26 @@ def handle : List String → String
   | ["lowtab"] =>
     let rs := (List.range 0x110000).filter (fun r => 128 ≤ r ∧ tlMin r < 128)
     s!"ok {",".intercalate (rs.map (fun r => s!"{r}:{tlMin r}"))}"
+  | ["groups", rev, groups, sortkeys, _perm] =>
+    match decHexList groups, (if sortkeys = "." then some none else (decHexList sortkeys).map some) with
+    | some gs, some ks =>
+      if ¬ gs.Nodup then "bad-args"
+      else if (match ks with | some l => l.length != gs.length | none => false) then "bad-args"
+      else
+        let seen := match ks with | some l => l | none => gs
+        let o0 := realOracle noDates
+        let o : Oracle := { o0 with num := memo realNum seen, lower := memo lowerK seen }
+        if !ctxUniform o sortSets seen then "unmodelled stateful-nonuniform"
+        else
+          let base := contextualSpec o sortSets seen
+          let less := if rev = "1" then revLess base else base
+          match ks with
+          | none => s!"ok {hexList (isort less gs)}"
+          | some l =>
+            let tab := gs.zip l
+            let f : Key → Key := fun g => (tab.lookup g).getD []
+            s!"ok {hexList (isort (groupsSpecLess less f) gs)}"
+    | _, _ => "bad-args"
   | ["tparse", layout, keys] =>
     match Hex.dec layout, decHexList keys with
     | some l, some ks =>
